@@ -223,6 +223,32 @@ def document(variables, start, stop, dt_spec, name="generated"):
     return "".join(out)
 
 
+def _var_xml(v):
+    out = []
+    kind = v["kind"]
+    out.append("\t\t\t<%s name=%s>\n" % (kind, quoteattr(v["name"])))
+    out.append("\t\t\t\t<eqn>%s</eqn>\n" % escape(v["eqn"]))
+    out.append("\t\t\t</%s>\n" % kind)
+    return "".join(out)
+
+
+def document_modules(main_variables, modules, start, stop, dt_spec, name="generated"):
+    """main model with <module name=.../> declarations plus one <model name=...> per module (aux variables only)"""
+    out = [HEADER % {"name": name, "start": start, "stop": stop, "dt": dt_element(dt_spec)}]
+    for v in main_variables:
+        out.append(_var_xml(v))
+    for mname in modules:
+        out.append("\t\t\t<module name=%s/>\n" % quoteattr(mname))
+    out.append("\t\t</variables>\n\t</model>\n")
+    for mname, variables in modules.items():
+        out.append("\t<model name=%s>\n\t\t<variables>\n" % quoteattr(mname))
+        for v in variables:
+            out.append(_var_xml(v))
+        out.append("\t\t</variables>\n\t</model>\n")
+    out.append("</xmile>\n")
+    return "".join(out)
+
+
 class LogCapture(logging.Handler):
     def __init__(self):
         super().__init__(level=logging.WARNING)
